@@ -532,7 +532,7 @@ def shrink(ctx, prob, env=None, budget=120):
 
 def write_replay(ctx, title, ops, detail, env=None, extra=None):
     os.makedirs(ROOT + '/replays', exist_ok=True)
-    h = hashlib.sha1(('\n'.join(ops) + title).encode()).hexdigest()[:10]
+    h = hashlib.sha1(('\n'.join(ops) + title + detail).encode()).hexdigest()[:10]
     path = '%s/replays/%s-%s-%s.replay' % (ROOT, ctx.prop, ctx.seed, h)
     with open(path, 'w') as f:
         f.write('# property %s: %s\n' % (ctx.prop, title))
